@@ -69,6 +69,7 @@ def trim(v):
 def make_compiler(ctx, wb, stream, k):
     """Returns (compiler, model prefix ops, stored dict)."""
     from pycel import ExcelCompiler
+    unb = stream in CONFIG
     stream = CONFIG.get(stream, stream)
     if stream in ('stored', 'stored_clean', 'stored_partial'):
         ref = ExcelCompiler(excel=wb.to_openpyxl())
@@ -84,7 +85,14 @@ def make_compiler(ctx, wb, stream, k):
         prefix = []
         if stream in ('stored_clean', 'stored_partial'):
             # every cell is in the model before the first write
-            for i in range(len(wb.nodes)):
+            first = list(range(len(wb.nodes)))
+            if unb:
+                # only the cells, in a random order: the range nodes and the reference node S!B:B enter the model
+                # as precedents (they get their value when the graph is built: repair f35c77a; the explicit range
+                # B1:Bm built before or after the whole-column reference: repair b9ea5fb)
+                first = wb.cells()
+                ctx.rng.shuffle(first)
+            for i in first:
                 comp.evaluate(wb.nodes[i]['addr'])
                 prefix.append([0, i])
         return comp, prefix, results
